@@ -353,7 +353,7 @@ def _replay_row(w, row, objs, real, jmap, confs, lcm, opts, out):
         if "C12" in props and spi == 0:
             _vale_checks(w, row, hint, objs, real, jmap, verd, full, code, out)
         # ---- C18: the configuration rewrite equals rewriting the hint by hand ------------------------
-        if "C18" in props and ci in (3, 4) and spi == 0:
+        if "C18" in props and ci in (3, 4, 5) and spi == 0:
             from beartype import BeartypeConf
             try:
                 hint_pub = w.hint(row["pub"], 0)
